@@ -238,6 +238,10 @@ def check(cx):
         if e.pc != T or not any(g[0] == 'read' or g[0] == 'write' for g in e.guards):
             r2.violation('process_lusers|%s-guard' % v, '%s is conditional or computed outside the state guard' % v, loc=cx.loc(e.node))
 
+    # the number of channels LUSERS reports is the size of the channel map: it is true only if emptied channels are deleted
+    r2.instance('channel count: emptied channels are deleted, by every way of leaving (C16 R16.2)')
+    depends(cx, r2, 'C16', ('R16.2',), 'a channel ceases to exist with its last member', only=r'remove_user_from_channel|calls\|remove_user|deletion')
+
     # ---------------------------------------------------------------- R19.3 ISON / USERHOST
     r3 = cx.rule('R19.3', 'ISON / USERHOST', floor=2, kind='provenance')
     fi = cx.fn('process_ison')
